@@ -10,7 +10,7 @@ seeds = sorted(d for d in os.listdir(os.path.join(V, "seeded")) if os.path.exist
 if len(sys.argv) > 1:
     seeds = [s for s in seeds if s in sys.argv[1:]]
 N = 120
-reg = [o for o in run.parse_registry() if o.get("profile", "model") == "model" and "PROBE" not in o["props"] and o.get("native", "yes") != "no" and o["tier"] != "parked"]
+reg = [o for o in run.parse_registry() if o.get("profile", "model") == "model" and "PROBE" not in o["props"] and o.get("native", "yes") != "no"]
 for s in seeds:
     if subprocess.run(["git", "-C", "/repo", "diff", "--quiet"]).returncode != 0:
         print("/repo dirty"); sys.exit(2)
